@@ -4,6 +4,7 @@ import (
 	"fmt"
 	"math/big"
 	"sort"
+	"strings"
 
 	"github.com/LemoFoundationLtd/lemochain-core/chain/params"
 	"github.com/LemoFoundationLtd/lemochain-core/chain/txpool"
@@ -25,14 +26,16 @@ var (
 	boxerKey, _  = crypto.HexToECDSA("c21b6b2fbf230f665b936194d14da67187732bf9d28768aef1a3cbb26608f8aa")
 )
 
-// queries asked after every step, about every live block (input selection only; the trace spec judges each answer)
-var queries = [][]string{{"t"}, {"t2"}, {"b"}, {"u"}, {"t", "u"}, {"b", "u"}, {"u", "t2"}}
+// queries asked after every step, about every live block, in every carrier encoding of the behaviour (input selection only; the
+// trace spec judges each answer)
+var queries = [][]string{{"t"}, {"t2"}, {"b"}, {"u"}, {"t", "u"}, {"b", "u"}, {"u", "t2"}, {"w"}}
 
 type adapter struct {
 	u      *Universe
 	ukey   string
 	guard  *txpool.TxGuard
-	qtxs   []types.Transactions
+	encs   []string
+	qtxs   map[string][]types.Transactions // carrier encoding -> query -> transactions
 	blocks []*types.Block // index = id-1
 	parent []int
 	stable int
@@ -41,17 +44,22 @@ type adapter struct {
 
 func (a *adapter) Reset(init map[string]tla.Value) (engine.Fields, error) {
 	e := init["exp"]
-	key := e.String()
+	encs := init["encs"].Strs()
+	sort.Strings(encs)
+	key := e.String() + strings.Join(encs, ",")
 	if a.u == nil || a.ukey != key {
-		a.u = Standard(senderKey, boxerKey, common.HexToAddress("0x12ab"), big.NewInt(3), chainID,
-			uint64(Epoch+e.F("t").I()), uint64(Epoch+e.F("b").I()), uint64(Epoch+e.F("u").I()))
-		a.ukey = key
-		a.qtxs = nil
-		for _, q := range queries {
-			a.qtxs = append(a.qtxs, a.u.Txs(q))
+		if e.F("t2").I() != e.F("t").I() || e.F("w").I() != e.F("b").I() {
+			engine.Failf("t2 is a re-encoding of t, w another box like b: the spec must give each pair the same expiration")
 		}
-		if e.F("t2").I() != e.F("t").I() {
-			engine.Failf("t2 is a re-encoding of t: the spec must give both the same expiration")
+		a.u = Standard(senderKey, boxerKey, common.HexToAddress("0x12ab"), big.NewInt(3), chainID,
+			uint64(Epoch+e.F("t").I()), uint64(Epoch+e.F("b").I()), uint64(Epoch+e.F("u").I()), encs)
+		a.ukey = key
+		a.encs = encs
+		a.qtxs = map[string][]types.Transactions{}
+		for _, enc := range encs {
+			for _, q := range queries {
+				a.qtxs[enc] = append(a.qtxs[enc], a.u.Carried(q, enc))
+			}
 		}
 	}
 	root := init["blocks"].GetI(1)
@@ -70,7 +78,7 @@ func (a *adapter) Reset(init map[string]tla.Value) (engine.Fields, error) {
 		hashes[id] = a.u.Tx[id].Hash().Hex()
 	}
 	fl := engine.Fields{"exp": exp, "subs": a.u.Subs, "payload": a.u.Payload, "hash": hashes, "root_time": root.F("time").I(),
-		"life": params.MaxTxLifeTime, "queries": queries}
+		"life": params.MaxTxLifeTime, "queries": queries, "encs": a.encs}
 	a.answers(fl)
 	return fl, nil
 }
@@ -91,14 +99,18 @@ func (a *adapter) live() []int {
 	return out
 }
 
-// answers asks the real guard every query about every live block and logs the answers.
+// answers asks the real guard every query about every live block in every carrier encoding and logs the answers: one row per
+// (block p, encoding e) with r[k] = answer to queries[k] (compact: the trace validator holds the whole log in memory).
 func (a *adapter) answers(fl engine.Fields) {
 	live := a.live()
 	ans := []map[string]interface{}{}
 	for _, p := range live {
-		for qi, q := range queries {
-			r := a.guard.ExistTxs(a.blocks[p-1].Hash(), a.qtxs[qi])
-			ans = append(ans, map[string]interface{}{"p": p, "q": q, "r": r})
+		for _, enc := range a.encs {
+			r := make([]bool, len(queries))
+			for qi := range queries {
+				r[qi] = a.guard.ExistTxs(a.blocks[p-1].Hash(), a.qtxs[enc][qi])
+			}
+			ans = append(ans, map[string]interface{}{"p": p, "e": enc, "r": r})
 		}
 	}
 	fl["live"] = live
@@ -113,7 +125,7 @@ func (a *adapter) Apply(s engine.Step) (engine.Fields, error) {
 		p, tm := arg[0].I(), arg[1].I()
 		ids := arg[2].Strs()
 		sort.Strings(ids)
-		txs := a.u.Txs(ids)
+		txs := a.u.Carried(ids, arg[3].S()) // the block's transactions in the carrier encoding of this step
 		par := a.blocks[p-1]
 		id := len(a.blocks) + 1
 		blk := &types.Block{Header: &types.Header{ParentHash: par.Hash(), Height: par.Height() + 1, Time: uint32(Epoch + tm),
